@@ -121,6 +121,8 @@ class Interp:
         self.no_split = 0
         self.force_attr_split = False
         self.track_loads = False
+        self.dedupe_sites = False
+        self.trace_sites = []
         self.watch = None  # optional callable(event dict)
 
     # ------------------------------------------------------------------ exploration
@@ -128,12 +130,14 @@ class Interp:
         max_paths = max_paths or self.max_paths
         results = []
         stack = [[]]
+        seen_alts = set()
         while stack:
             prefix = stack.pop()
             if len(results) >= max_paths:
                 raise PathLimit(f"more than {max_paths} paths")
             self.prefix = prefix
             self.trace = []
+            self.trace_sites = []
             self.events = []
             self.assumptions = []
             self.steps = 0
@@ -154,11 +158,17 @@ class Interp:
             self.stats["paths"] += 1
             for i in range(len(prefix), len(self.trace)):
                 chosen, n = self.trace[i]
+                site = self.trace_sites[i] if i < len(self.trace_sites) else None
                 for alt in range(chosen + 1, n):
+                    if site is not None:
+                        if (site, alt) in seen_alts:
+                            continue
+                        seen_alts.add((site, alt))
                     stack.append([c for c, _ in self.trace[:i]] + [alt])
         return results
 
-    def choose(self, n, label=None):
+    def choose(self, n, label=None, site=None):
+        """``site``: key of a may-raise fork; with ``dedupe_sites`` each (site, alternative) is explored once."""
         if n <= 0:
             raise Infeasible()
         if n == 1:
@@ -168,6 +178,7 @@ class Interp:
         if c >= n:
             raise AnalysisError(f"non-deterministic replay at choice {i} ({label})")
         self.trace.append((c, n))
+        self.trace_sites.append(site if self.dedupe_sites else None)
         return c
 
     def event(self, kind, **kw):
@@ -218,7 +229,7 @@ class Interp:
         fr = getattr(self, "cur_frame", None)
         self.event("partial", exc=exc_name, node=node, what=what, certain=certain, witness=witness,
                    where=self._where(node), func=fr.func.short if fr and fr.func else None)
-        if certain or self.choose(2, f"raise {exc_name}") == 1:
+        if certain or self.choose(2, f"raise {exc_name}", site=("raise", id(node), exc_name)) == 1:
             raise Raised(ExcVal(exc_name, (what,), node, self._where(node)))
 
     # ------------------------------------------------------------------ branching
@@ -352,7 +363,7 @@ class Interp:
                 self.event("partial", exc=o[1].name, node=o[1].node or node, what=f"call of {func.short}",
                            certain=not rets, witness=o[2], where=o[1].where or self._where(node),
                            func=func.short, excval=o[1])
-        pick = options[self.choose(len(options), "lifted outcome")]
+        pick = options[self.choose(len(options), "lifted outcome", site=("lifted", func.qualname, id(node)))]
         if pick[0] == "exc":
             raise Raised(pick[1])
         return pick[1]
@@ -1136,6 +1147,8 @@ class Interp:
             src = self.eval(g.iter, sub if i else frame)
             if isinstance(src, ABag):
                 raise _BagIteration(src, g)
+            if isinstance(src, libmodel_EnumBag()):
+                raise _BagIteration(src.bag, g, enum_start=src.start)
             for x in ops.iterate(self, src, g.iter):
                 self.assign(g.target, x, sub)
                 if all(self.eval_cond(c, sub) for c in g.ifs):
@@ -1157,7 +1170,11 @@ class Interp:
                 raise CannotEvaluate("comprehension over a string of unknown length")
             sub = Frame(frame.func, frame.module, {}, cls=frame.cls, self_val=frame.self_val, closure=frame)
             sub.comp_depth = frame.comp_depth + 1
-            self.assign(node.generators[0].target, b.bag.cs, sub)
+            if b.enum_start is None:
+                self.assign(node.generators[0].target, b.bag.cs, sub)
+            else:
+                idx = Interval(b.enum_start, b.enum_start + max(b.bag.hi - 1, 0)) if b.bag.hi > 1 else b.enum_start
+                self.assign(node.generators[0].target, (idx, b.bag.cs), sub)
             return ops.BagOf(b.bag.lo, b.bag.hi, self.eval(node.elt, sub))
 
     def ex_SetComp(self, node, frame):
@@ -1187,9 +1204,15 @@ class Interp:
 
 
 class _BagIteration(Exception):
-    def __init__(self, bag, gen):
+    def __init__(self, bag, gen, enum_start=None):
         self.bag = bag
         self.gen = gen
+        self.enum_start = enum_start
+
+
+def libmodel_EnumBag():
+    from .libmodel import EnumBag
+    return EnumBag
 
 
 _IN_PROGRESS = object()
@@ -1227,6 +1250,7 @@ class SubRun:
         it = self.it
         saved = (it.prefix, it.trace, it.events, it.assumptions, getattr(it, "cur_frame", None), it.depth)
         saved_log = getattr(it, "undo_log", None)
+        saved_sites = it.trace_sites
         results = []
         stack = [[]]
         collected = []
@@ -1236,6 +1260,7 @@ class SubRun:
                 if len(results) > it.max_paths:
                     raise PathLimit("nested exploration too large")
                 it.prefix, it.trace, it.events, it.assumptions = prefix, [], [], []
+                it.trace_sites = []
                 it.depth = saved[5]
                 it.cur_frame = saved[4]
                 it.undo_log = []
@@ -1262,6 +1287,7 @@ class SubRun:
         finally:
             it.prefix, it.trace, it.events, it.assumptions, it.cur_frame, it.depth = saved
             it.undo_log = saved_log
+            it.trace_sites = saved_sites
         if keep_events:
             for e in collected:
                 e = dict(e)
